@@ -1,4 +1,4 @@
-CONSTANTS Kinds = {"M","O","Q","E","CM","CO"} MaxLog = 6 MaxPush = 7 SliceLim = 0 ChanLim = 0 UseSeq = FALSE Tracked0 = TRUE MaxCrash = 1 Fixed = TRUE SimDepth = 16
+CONSTANTS Kinds = {"M","O","Q","E","CM","CO"} MaxLog = 6 MaxPush = 7 SliceLim = 0 ChanLim = 0 UseSeq = FALSE Tracked0 = TRUE MaxCrash = 1 Fixed = TRUE TooLongAt = 0 ChanTooLongAt = 0 DiffLimit = 0 ChanTLPush = FALSE SimDepth = 16
 INIT Init
 NEXT NextPairs
 VIEW View
